@@ -8,15 +8,17 @@
    level where the tree is built -- the parser's statements() loop -- against a depth-counter
    spec; the implicit-name rule is proved over the table regenerated from the source.
    C01_parse_groups extends this to statements with parenthesised groups `( ... )`, optionally
-   repeated, nested to any depth (mutual induction over statements and units); the unrolling of
-   repeaters is C02 (C02_limit_full, C02_convert_count).
+   repeated, nested to any depth (mutual induction over statements and units); C01_convert_shape
+   gives the depth list and the number of elements of the unrolled forest (the copy/budget details
+   are C02: C02_limit_full, C02_convert_count).
    _partial: the formatter's tag events (every node of the final tree printed once, in order) are
    covered by the model/implementation correspondence and the denotation oracle, not by a
    theorem yet; element blocks are required to satisfy [block_ok]/[gblock_ok] (proved for bare
    names; attributes/text blocks are C03/C04's concern). *)
 From Coq Require Import String.
 From Emmet Require Import lib.Base lib.StrLit model.MarkupTokenizer model.MarkupParser model.MarkupConvert
-     model.MarkupResolve proofs.ParserSpine proofs.ParserGroups proofs.ImplicitProofs.
+     model.MarkupResolve proofs.ParserSpine proofs.ParserGroups proofs.ImplicitProofs
+     proofs.ConvertProofs proofs.ConvertShape.
 
 (* the preorder depth list of the parsed tree is the one the operators denote:
    `>` nests, `+` keeps the level, each `^` moves one level up and stops at the top *)
@@ -45,6 +47,23 @@ Theorem C01_name_is_gblock :
     gblock_ok false [t] (mkLeaf (Some [t]) None None None false).
 Proof. exact gblock_name. Qed.
 Print Assumptions C01_name_is_gblock.
+
+(* convert_shape: unrolling preserves the relative order of the written elements and multiplies
+   them by the repeat counts.  For every token tree without `$#` / implicit `*` and a budget that
+   does not cut (C02 treats the cut): the converter's forest has the depth list [shape] -- each unit
+   contributes, once per copy and in order, its element at its depth followed by its children one
+   level deeper, a group contributes its contents at its own depth -- and its number of elements
+   is [size]: every written element times the repeat counts of the repeated units around it. *)
+Theorem C01_convert_shape :
+  forall (env : cenv) (max_repeat : option N) (root : list tnode),
+    ce_text env = WNone -> forallb clean_node root = true ->
+    (total_list root <= budget_of max_repeat)%Z ->
+    exists forest,
+      convert env max_repeat root = Ok forest /\
+      apreL 0 forest = flat_map (shape env [] 0) root /\
+      asizeL forest = list_sum (map size root).
+Proof. exact convert_shape_model. Qed.
+Print Assumptions C01_convert_shape.
 
 (* the hypothesis [block_ok] of [flat] is met by elements written as a bare name *)
 Theorem C01_name_is_block :
